@@ -416,7 +416,48 @@ func init() {
 					continue
 				}
 				if oneHit {
-					r.ok(key, fnName(fn), c.pos(fn.Pos()), "reads normBits1Hit as well as postings")
+					// the 1-hit dispatch must come first: every content use is dominated by the normBits1Hit == 0 edge
+					var zeroEdges []*ssa.BasicBlock
+					for _, b := range fn.Blocks {
+						ifi, ok := b.Instrs[len(b.Instrs)-1].(*ssa.If)
+						if !ok {
+							continue
+						}
+						bin, ok := ifi.Cond.(*ssa.BinOp)
+						if !ok || (bin.Op != token.NEQ && bin.Op != token.EQL) {
+							continue
+						}
+						if k, isK := constUint(bin.Y); !isK || k != 0 || exprSig(bin.X, 0) != ".normBits1Hit" {
+							continue
+						}
+						z := b.Succs[1]
+						if bin.Op == token.EQL {
+							z = b.Succs[0]
+						}
+						zeroEdges = append(zeroEdges, z)
+					}
+					late := ""
+					for _, ld := range postingsLoads {
+						for _, ref := range *ld.Referrers() {
+							if _, isCall := ref.(ssa.CallInstruction); !isCall {
+								continue
+							}
+							dom := false
+							for _, z := range zeroEdges {
+								if len(z.Preds) == 1 && (z == ref.Block() || z.Dominates(ref.Block())) {
+									dom = true
+								}
+							}
+							if !dom {
+								late = c.pos(ref.Pos())
+							}
+						}
+					}
+					if late != "" {
+						r.bad(key, fnName(fn), late, "the postings bitmap is used before the 1-hit dispatch (normBits1Hit) decided that the list is general-encoded: a reused list's stale bitmap would win over its 1-hit value")
+						continue
+					}
+					r.ok(key, fnName(fn), c.pos(fn.Pos()), "dispatches on normBits1Hit before any use of the postings bitmap")
 				} else {
 					r.bad(key, fnName(fn), c.pos(postingsLoads[0].Pos()), "uses PostingsList.postings without consulting normBits1Hit: 1-hit encoded lists would be treated as empty")
 				}
